@@ -348,4 +348,96 @@ def delete (d : Dialect) (f : Bytes) : Except PyErr Bytes :=
         | .error e => .error e
         | .ok (f2, _) => .ok f2
 
+/-! ### the load path, and `save` for ID3 chunks that claim more data than the file has
+
+Added for the closure statements (Props/C04_Iff.lean); the definitions above are unchanged. -/
+
+/-- what `_pre_load_header` does with the bytes (`self._load_file(fileobj)['ID3']`; WAVE: `_WaveFile(fileobj)[u'id3']`):
+the root chunk, its sub-chunks, the lookup.  `ok none`: KeyError, caught (ID3NoHeaderError, no tags). -/
+def locate (d : Dialect) (f : Bytes) : Except PyErr (Option Rec) :=
+  match parseRoot d f with
+  | .error e => .error e
+  | .ok rs =>
+    match walk d f rs with
+    | .error e => .error e
+    | .ok recs => .ok (find d.loadIds recs)
+
+/-- `save(padding=…)` for `PaddingInfo.size` of either sign: a truncated ID3 chunk (`data_size` beyond the
+end of the file) makes `trailing_size = filesize - start - available` negative -/
+inductive PadZ
+  | default
+  | callback (f : Int → Int → Int)
+
+/-- `PaddingInfo.get_default_padding` with an integer `size` (`//` is floor division; for a positive divisor
+that is `Int`'s `/`).  Agrees with `Generated.defaultPadding` on natural sizes (Proofs/Container/IffTotal.lean,
+`defaultPaddingZ_nat`: re-checked against the generated policy on every build). -/
+def defaultPaddingZ (padding size : Int) : Int :=
+  let high : Int := 1024 * 10 + size / 100
+  let low : Int := 1024 + size / 1000
+  if padding ≥ 0 then (if padding > high then low else padding) else low
+
+def getPaddingZ (c : PadZ) (padding size : Int) : Int :=
+  match c with
+  | .default => defaultPaddingZ padding size
+  | .callback f => f padding size
+
+def _root_.Mutagen.PadChoice.toZ : PadChoice → PadZ
+  | .default => .default
+  | .callback f => .callback fun p s => f p s.toNat
+
+/-- `saveAt` from the point where the padding is known, following `_prepare_data` as it is since /repo commit
+a6f73d1: the size field of the ID3 header holds 28 bits — frames that do not fit raise `error("tag too large")`,
+the padding is capped at what is left (`saveAt` above, like `Id3F.save`, still follows the earlier code, which
+raised ValueError from `BitPaddedInt.to_str`) -/
+def saveTail (d : Dialect) (f : Bytes) (rootSize : Nat) (c : Rec) (vmaj : Nat) (frames : Bytes) (newPadding : Int) :
+    Except PyErr Bytes :=
+  let dataOff := c.offset + hs d
+  if newPadding < 0 then .error .mutagen
+  else if frames.length > 2 ^ 28 - 1 then .error .mutagen
+  else
+    let padN := min newPadding.toNat (2 ^ 28 - 1 - frames.length)
+    match Id3F.header vmaj (frames.length + padN) with
+    | .error e => .error e
+    | .ok hd =>
+      let data := hd ++ frames ++ zeros padN
+      let n := data.length
+      let old := actual f dataOff c.dataSize
+      let f1 := f.take dataOff ++ (data ++ zeros (n % 2)) ++ f.drop (dataOff + old)
+      match updateSize d f1 c.offset c.dataSize ((n : Int) - c.dataSize) with
+      | .error e => .error e
+      | .ok (f2, _) =>
+        match updateSize d f2 0 rootSize (((hs d + n + n % 2 : Nat) : Int) - (c.size d : Nat)) with
+        | .error e => .error e
+        | .ok (f3, _) => .ok f3
+
+/-- `saveAt` without the restriction to `trailing_size ≥ 0`, and with the current `_prepare_data` (`saveTail`) -/
+def saveAtZ (d : Dialect) (f : Bytes) (rootSize : Nat) (c : Rec) (vmaj : Nat) (frames : Bytes) (pad : PadZ) :
+    Except PyErr Bytes :=
+  if vmaj ≠ 3 ∧ vmaj ≠ 4 then .error .value else
+  let trailing : Int := (f.length : Int) - (c.offset + hs d : Nat) - c.dataSize
+  saveTail d f rootSize c vmaj frames (getPaddingZ pad ((c.dataSize : Int) - (frames.length + 10 : Nat)) trailing)
+
+/-- `save` with the step after the lookup as a parameter (`save` is `saveWith … saveAt`, `save_eq_saveWith`) -/
+def saveWith (d : Dialect) (f : Bytes) (sa : Bytes → Nat → Rec → Except PyErr Bytes) : Except PyErr Bytes :=
+  match parseRoot d f with
+  | .error e => .error e
+  | .ok rs =>
+    match walk d f rs with
+    | .error e => .error e
+    | .ok recs =>
+      match find d.loadIds recs with
+      | some c => sa f rs c
+      | none =>
+        match insertChunk d f rs recs with
+        | .error e => .error e
+        | .ok (f1, rs1, recs1) =>
+          match find [d.key] recs1 with
+          | none => .error .key
+          | some c => sa f1 rs1 c
+
+/-- `IffID3.save` / `_WaveID3.save` for every file, following the current code: like `save` where `save` does not
+answer `notImplemented` (a truncated ID3 chunk) or ValueError (a tag beyond 2^28 bytes, earlier code) -/
+def saveZ (d : Dialect) (f : Bytes) (vmaj : Nat) (frames : Bytes) (pad : PadZ) : Except PyErr Bytes :=
+  saveWith d f fun f1 rs c => saveAtZ d f1 rs c vmaj frames pad
+
 end Mutagen.Iff
